@@ -51,7 +51,7 @@ def step (fb : FB) (run : Run) : List String → Option (Option Run × List Stri
   | "skip" :: k :: rest => do
     let k ← parseNat k
     let s ← run.st
-    let r := (List.range k).foldlM (fun s _ => do let s ← sieveBlock fb s; nextBlock s) s
+    let r := runBlocks fb k s
     match r with
     | none => some (none, rest)
     | some s => some (some { run with st := some s }, rest)
